@@ -104,7 +104,26 @@ type rbsMethodModel struct {
 	Name      string
 	Singleton bool
 	Sigs      []rbsSig
+	TParam    string // typed probe method: core type of its single parameter ...
+	TRet      string // ... and of its return value
 }
+
+// coreTypes: RBS core types with a literal of that type, a literal of another type, and the
+// name ti prints for the type. The mapping is checked end to end (what ti accepts, rejects
+// and infers), not against the converter's own table.
+var coreTypes = map[string]struct {
+	rbs              map[string]any
+	good, bad, shown string
+}{
+	"Integer": {map[string]any{"class": "class_instance", "name": "::Integer", "args": []any{}}, "1", "\"s\"", "Integer"},
+	"String":  {map[string]any{"class": "class_instance", "name": "::String", "args": []any{}}, "\"s\"", "1", "String"},
+	"Float":   {map[string]any{"class": "class_instance", "name": "::Float", "args": []any{}}, "1.5", "\"s\"", "Float"},
+	"Symbol":  {map[string]any{"class": "class_instance", "name": "::Symbol", "args": []any{}}, ":s", "1", "Symbol"},
+	"bool":    {map[string]any{"class": "bool"}, "true", "\"s\"", "Bool"},
+	"nil":     {map[string]any{"class": "nil"}, "nil", "1", "NilClass"},
+}
+
+var coreTypeNames = []string{"Integer", "String", "Float", "Symbol", "bool", "nil"}
 
 func rbsType(r *Rng, untyped bool) map[string]any {
 	if untyped {
@@ -273,6 +292,17 @@ func genRBS(r *Rng) ([]byte, []rbsMethodModel) {
 			members = append(members, after...)
 			models = append(models, model)
 			names = append(names, mname)
+		}
+		if depth == 0 && r.Chance(1, 2) {
+			// a typed probe method: one required parameter and a return value of core types
+			pt, rt := coreTypeNames[r.Intn(len(coreTypeNames)-1)], coreTypeNames[r.Intn(len(coreTypeNames))]
+			tname := "typed_" + strings.ToLower(name[:3])
+			ft := rbsFunc(r, rbsSig{Untyped: true})
+			ft["required_positionals"] = []any{map[string]any{"name": "x", "type": coreTypes[pt].rbs}}
+			ft["return_type"] = coreTypes[rt].rbs
+			members = append(members, map[string]any{"member": "method_definition", "name": tname, "kind": "singleton", "visibility": "public", "comment": nil,
+				"overloads": []any{map[string]any{"method_type": map[string]any{"type_params": []any{}, "block": nil, "type": ft}}}})
+			models = append(models, rbsMethodModel{Class: full, Name: tname, Singleton: true, TParam: pt, TRet: rt})
 		}
 		hasNested := false
 		for x := 0; x < r.Intn(3); x++ {
@@ -706,6 +736,9 @@ func (o *convPipe) shapeC25(c *Ctx, cs *Case, classes []tiClass) *Finding {
 		byClass[full] = cl
 	}
 	for _, m := range models {
+		if m.TParam != "" {
+			continue // typed probe methods are judged end to end in arity()
+		}
 		cl, ok := byClass[m.Class]
 		if !ok {
 			return &Finding{Sig: "shape:missing-class", What: "class " + m.Class + " missing from the output"}
@@ -797,6 +830,7 @@ func (o *convPipe) arity(c *Ctx, w *Worker, cs *Case, classes []tiClass, produce
 		shape  string
 	}
 	var probes []probe
+	wants := map[int]string{} // row -> text the row must print (dbtp of a return value)
 	var sb strings.Builder
 	row := 0
 	line := func(s string) int { sb.WriteString(s + "\n"); row++; return row }
@@ -867,6 +901,21 @@ func (o *convPipe) arity(c *Ctx, w *Worker, cs *Case, classes []tiClass, produce
 				call := fmt.Sprintf("%s.%s(%s)", recv, m.Name, strings.Join(args, ", "))
 				probes = append(probes, probe{line(call), call, true, "optional keyword given", decisive("optkw-given", sig.traits())})
 			}
+		}
+		// type mapping, end to end: a literal of the declared core type is accepted, one of
+		// another type is rejected, and the call has the declared return type
+		for _, m := range models {
+			if m.TParam == "" || strings.Contains(m.Class, "::") {
+				continue
+			}
+			pt, rt := coreTypes[m.TParam], coreTypes[m.TRet]
+			call := fmt.Sprintf("%s.%s(%s)", m.Class, m.Name, pt.good)
+			probes = append(probes, probe{line(call), call, true, "argument of the declared type " + m.TParam, "type-accept:" + m.TParam})
+			bad := fmt.Sprintf("%s.%s(%s)", m.Class, m.Name, pt.bad)
+			probes = append(probes, probe{line(bad), bad, false, "argument of another type than " + m.TParam, "type-reject:" + m.TParam})
+			d := "dbtp " + call
+			probes = append(probes, probe{line(d), d, true, "declared return type " + m.TRet, "type-return:" + m.TRet})
+			wants[row] = rt.shown
 		}
 	} else {
 		var models []cMethodModel
@@ -940,6 +989,19 @@ func (o *convPipe) arity(c *Ctx, w *Worker, cs *Case, classes []tiClass, produce
 	var firstF *Finding
 	for _, p := range probes {
 		msg, flagged := diag[p.row]
+		if want := wants[p.row]; want != "" {
+			if !flagged || msg != want {
+				f := &Finding{Sig: "types:" + p.shape, What: fmt.Sprintf("`%s` (%s): ti prints %q, expected %q", p.call, p.what, msg, want)}
+				if firstF == nil {
+					firstF = f
+				}
+				if c.openKnown(f.Sig) == nil {
+					cs.Meta["probe_program"] = sb.String()
+					return f
+				}
+			}
+			continue
+		}
 		if flagged == p.accept {
 			kind := "rejects-valid-call"
 			if !p.accept {
